@@ -14,13 +14,14 @@ RULE = (
     "being randomised, are opened by an independent ECIES on libcrypto instead) AND an independently written strict parser (must recover "
     "directory size, absolute addresses, stored/declared lengths, both MACs with IV = 1-based index, tag lists, sentinel, contiguous payloads to EOF) "
     "AND a strict text parser (comment lines, one blank line, upper-case hex, every non-final line exactly 80 columns). "
+    "'rewrite': ONE file object serialised, edited through its public attributes (tags, component list, payloads) and serialised again - every output must be the model's bytes for the object as it is then (non-trivial = directory size changed between two serialisations). "
     "Non-trivial = >= 2 components, or offset not in {0,5}, or >= 1 tag, or BEC2 framing; distinct by case hash."
 )
 ASSUMPTIONS = [
     "AES of the model is OpenSSL libcrypto (EVP, CBC, zero IV), cross-checked against a from-the-definition AES in C16",
     "the writer's single trailing empty line after the hex block is allowed (not part of the stated layout, not contradicting it)",
 ]
-REQUIRED_CLASSES = ["same-component-object-listed-twice", "enc-component>4KiB", "flag-tag-mismatch=flag-without-tag", "flag-tag-mismatch=tag-without-flag", "offset>65535", "comps>=2", "bec2.blocks>=2", "bec2.ecc", "enc-component", "route=path", "entries>255", "bec2.unknown-tag-block"]
+REQUIRED_CLASSES = ["rewrite.directory-size-changed.same-count", "rewrite.directory-size-changed.count-changed", "same-component-object-listed-twice", "enc-component>4KiB", "flag-tag-mismatch=flag-without-tag", "flag-tag-mismatch=tag-without-flag", "offset>65535", "comps>=2", "bec2.blocks>=2", "bec2.ecc", "enc-component", "route=path", "entries>255", "bec2.unknown-tag-block"]
 
 
 def _model_comps(case, key):
@@ -197,6 +198,62 @@ def check_bec2(case, rec):
         raise Violation("BEC2 text body differs from to_binary body")
 
 
+def check_rewrite(case, rec):
+    """ONE Bf3File object: to_binary, edits through the public attributes, to_binary again - each output is the layout of the object as it is
+    then (directory size = the directory's real size, addresses absolute), by the independent serialiser and the strict parser"""
+    from vlib import edits
+
+    key = case["key"]
+    k = key if key is not None else M.ZERO_KEY
+    kw = {} if key is None else {"session_key": key}
+    offset = case["offset"]
+    model = [edits._copy(c) for c in case["comps"]]
+    f = sut.Bf3File({}, [sut.mk_component(c) for c in model])
+    last, done, nt = None, [], False
+
+    def compare(when):
+        mcomps = _model_comps(dict(comps=model), k)
+        try:
+            got = f.to_binary(offset, **kw)
+        except Exception as e:
+            raise Violation("%s: to_binary raised %s: %s" % (when, type(e).__name__, e))
+        _cmp("%s: Bf3File.to_binary(offset=%d)" % (when, offset), got, M.body(mcomps, offset, k))
+        try:
+            parsed = M.parse_body_strict(bytes(offset) + got, offset, k)
+        except M.Reject as e:
+            raise Violation("%s: strict parser rejects to_binary output: %s" % (when, e))
+        _check_fields(parsed, mcomps, when, k)
+
+    compare("first write")
+    last = (len(model), edits.dir_size(model))
+    for op in list(case["ops"]) + [("write",)]:
+        if op[0] == "write":
+            now = (len(model), edits.dir_size(model))
+            if done:
+                if now[1] != last[1]:
+                    rec.cls("rewrite.directory-size-changed" + (".same-count" if now[0] == last[0] else ".count-changed"))
+                    nt = True
+                compare("write after edits %s" % (done,))
+            last, done = now, []
+            continue
+        lab = edits.apply(op, model, f, sut.mk_component)
+        if lab:
+            done.append(lab)
+    if nt:
+        rec.nt()
+
+
+def strat_rewrite(tier):
+    from vlib import edits
+
+    return st.fixed_dictionaries(dict(
+        comps=st.lists(st.one_of(S.plain_component(300), S.enc_component(300)), max_size=4),
+        key=S.session_key(),
+        offset=st.one_of(st.sampled_from([0, 5]), st.integers(0, 4096)),
+        ops=edits.ops(6 if tier == "quick" else 12, max_len=300, enc=True),
+    ))
+
+
 def strat_bf3(tier):
     mx = 6144 if tier == "quick" else 32768
     comp = st.one_of(S.plain_component(mx), S.plain_component(mx), S.enc_component(512), S.mismatch_component(300))
@@ -296,6 +353,7 @@ def parts(tier):
         Part("many_entries", check=check_many, enum=enum_many_entries, quick=(4, 0), thorough=(8, 0)),
         Part("large_enc", check=check_large_enc, enum=enum_large_enc, quick=(3, 0), thorough=(5, 0)),
         Part("interleave", check=check_interleave, strategy=strat_interleave, quick=(8, 2), thorough=(16, 10)),
+        Part("rewrite", check=check_rewrite, strategy=strat_rewrite, quick=(8, 120), thorough=(16, 1200)),
         Part("bf3_layout", check=check_bf3, strategy=strat_bf3, quick=(16, 400), thorough=(16, 4000)),
         Part("bec2_layout", check=check_bec2, strategy=strat_bec2, quick=(16, 150), thorough=(16, 1200)),
     ]
